@@ -778,13 +778,19 @@ PROPS["C16"] = dict(
                  "or a short literal (<= 15 significant digits, |decimal exponent| <= 22), as the statement says"],
     partial=["c16_agree_partial / c16_text_agrees_partial: the owned/borrowed leg is proved in full strength over the whole universe and "
              "every configuration (c16_owned_borrowed). The text leg — Model.Typed.deTypedTop (transcription of de.rs's typed entry "
-             "points + end()) on the serializer model's to_string(v) equals fromValue — is proved for the fragment bool / twelve integer "
-             "widths / unit / unit struct / Option / newtype / Vec / fixed tuples over float-free non-arbitrary_precision values within "
-             "the depth budget, matching and mismatching values alike. Missing: strings, char, bytes, every map / struct / enum target "
-             "(need the string sub-machine round trip parse(escape s) = s over runPfx), float targets and values (ryu's shape), "
-             "IgnoredAny and Value targets (C01 completeness over runPfx), arbitrary_precision. Outside the fragment the three-way "
-             "agreement is carried by the correspondence run: the executable specification compares the three REAL outcomes on every "
-             "generated pair and the driver's third model field is computed by the typed model from the text (0 disagreements)",
+             "points + end()) on the serializer model's to_string(v) equals fromValue, matching and mismatching values alike — is "
+             "proved (c16_text_agrees_partial) for every schema without float targets: bool, twelve integer widths, char, String, "
+             "byte buffers, unit / unit struct, Option, newtype, Vec, fixed tuples, maps with every key kind (string, twelve integer "
+             "widths, bool, char, unit-variant enums; arbitrary key strings), structs with and without deny_unknown_fields from "
+             "arrays and objects, enums with unit / newtype / non-empty tuple / struct variants, IgnoredAny, Value at any nesting "
+             "depth — over float-free non-arbitrary_precision values of the build (shapeOK) within the depth budget and outside the "
+             "statement's exclusions (struct variant written as an array: hasArrayPayload; zero-length tuple variant: part of the "
+             "fragment). Missing: f64 targets and float values (the link between the typed number scanner and ryu's text under "
+             "FloatsRoundTrip; a float under a 128-bit integer target is consumed as its integer prefix and rejected only by the "
+             "caller, so the per-target invariant fails there), f32 (outside the claim), arbitrary_precision. For these the "
+             "three-way agreement is carried by the correspondence run: the executable specification compares the three REAL "
+             "outcomes on every generated pair and the driver's third model field is computed by the typed model from the text "
+             "(0 disagreements)",
              "the wire codecs of Schema / TVal have no round-trip lemma (decode (enc x) = x); they are exercised on every case line"],
     technique="Lean 4 theorem by mutual structural induction over a nested typed universe: the two transcriptions of src/value/de.rs (owned "
               "Deserializer for Value, borrowed Deserializer for &Value, each with its seq/map/enum/variant access types, sharing Number's "
@@ -805,7 +811,8 @@ PROPS["C16"] = dict(
                "WTF-8 strings, option, seq / tuple with end_seq, maps with MapKey for every key kind, structs, enums, ignored, any, "
                "recursion budget, error positions for slice and reader); typed_no_panic / typed_fuel_suffices / typed_fuel_irrelevant "
                "(the model is total and its fuel is sufficient: the result is never `fuel` once fuel > schema size), typed_progress, and "
-               "c16_text_agrees_partial (text leg = from_value on the scalar / sequence fragment). The typed model is compared with the "
+               "c16_text_agrees_partial (text leg = from_value on every schema without float targets, over float-free values: strings, "
+               "maps with every key kind, structs, enums, IgnoredAny and nested Value included). The typed model is compared with the "
                "crate on every C16 pair's text and on ~200k (schema, text) cases per configuration incl. mutated texts, with message, "
                "category, line and column (0 disagreements).",
     level_note="Trusted: Lean kernel + propext/Classical.choice/Quot.sound; harness/driver comparison; the universal seed and serde's visitors "
@@ -895,8 +902,14 @@ PROPS["C04"] = dict(
          "Vec, tuples, arrays, BTreeMap/HashMap with string/integer/bool/char/newtype/unit-variant keys, enums with all four variant "
          "kinds incl. empty tuple/struct variants and escaped names, ByteBuf, recursive types, std types), 40 (thorough 1500) random "
          "instances per type from the harness PRNG through the same six combinations, compared after the Some(null-like) -> None "
-         "normalisation. A case is non-trivial when the value is a number, a non-empty string or a container (rtt: always); "
-         "distinct = distinct case lines.",
+         "normalisation. rtm: typed data over the schema universe of C16 (harness/src/c04m.rs) — 6000 (thorough 120000) random "
+         "(schema, typed value) pairs per configuration (gen_schema depth 0-3 with IgnoredAny replaced by (), values inhabiting the "
+         "type: integer bounds of every width, adversarial strings / chars / bytes, maps with distinct keys of every key kind, every "
+         "variant shape incl. zero-length tuple variants, Value members, f64 from the float family of the configuration, finite f32), "
+         "serialised by a dynamic Serialize that makes the calls of serde's / derive's impls, compact and pretty, read back with the "
+         "universal seed; the case line carries schema, value and the float texts, the driver computes the model's text and decoded "
+         "value. A case is non-trivial when the value is a number, a non-empty string or a container (rtt: always; rtm: the schema "
+         "is not bool / unit); distinct = distinct case lines.",
     trusted_base=[KERNEL, TIE,
                   "hand-written models Model.Ser (serializer, tied by C03's correspondence) and Model.Machine/Model.Num (parser, tied by "
                   "C01/C02's correspondence); here their composition is run against the crate's own round trip on every generated Value",
@@ -905,11 +918,24 @@ PROPS["C04"] = dict(
                  "ryu::Buffer::format_finite prints an RFC 8259 number; that the configured parser maps this text back to the same double is "
                  "the explicit hypothesis FloatsRoundTrip of the theorems (C07's corollary under float_roundtrip, C08's exact case for short "
                  "literals) and is evaluated by the driver on the text the crate printed for every generated float",
-                 "io::Write / io::Read deliver bytes in order (Vec writer, chunked reader)"],
-    partial=["typed clause (c04_typed): the typed text deserializer now has a Lean model (SJ/Model/Typed.lean, validated under C16 / C10 / "
-             "C13 / C09) but typed SERIALISATION of derived types has none, so no typed round-trip theorem is stated; the clause is "
-             "carried by the correspondence run (op rtt: derived types through the real crate, model = echo). The value-level piece "
-             "that exists: c16_text_agrees_partial (from_str::<T>(to_string(v)) = from_value::<T>(v) on the scalar / sequence fragment)",
+                 "io::Write / io::Read deliver bytes in order (Vec writer, chunked reader)",
+                 "typed clause: the Serialize impls are serde's (leaves, Option, Vec, tuples, maps) and serde_derive's (structs, enums) — "
+                 "code outside /repo; Model.TypedSer.progOf transcribes the calls they make (serialize_struct / serialize_field / "
+                 "serialize_*_variant / collect_seq / collect_map ...), and the harness op rtm (harness/src/c04m.rs: Dyn) makes exactly "
+                 "these calls against the real serializer for generated (schema, value) pairs"],
+    partial=["typed clause: c04_typed_partial — for every schema of the fragment agreeFragT (bool, twelve integer widths incl. every "
+             "128-bit value, char, String, byte buffers, unit / unit struct, Option, newtype, Vec, tuples, maps with every key kind, "
+             "structs, enums with unit / newtype / non-empty tuple / struct variants) and every well-formed typed value (wfTV: inhabits "
+             "the type, strings valid UTF-8, chars scalar, field / variant / key names distinct valid UTF-8, no Some(x) with x "
+             "serialising as null) whose text nests <= 127 deep: serCompact of the serializer program Model.TypedSer.progOf s v (the "
+             "calls serde's / serde_derive's Serialize impls make) succeeds and deTypedTop s of that text returns v, from every source. "
+             "Obtained by composition: C03 (text = render of the program's image), image_progOf (= image of the Value valueOf s v), "
+             "fromValue_valueOf (from_value(to_value(v)) = v) and the text leg of C16 (agree_gen). Missing: the pretty formatter (the "
+             "text leg is proved for the compact layout only), f64 / f32 fields (float step through the typed number scanner), Value "
+             "members (wfTV does not carry WFValue), IgnoredAny (no Serialize impl), zero-length tuple variants (from_value refuses "
+             "{\"V\":[]}, so the composition breaks although the text round trip holds), arbitrary_precision. All of these are "
+             "covered by the correspondence op rtm (both formatters, floats, f32, Value members, int keys: model text and model "
+             "decoded value computed, 0 disagreements) and by rtt (zoo of real derived types, model = echo)",
              "floats: c04_value takes the hypothesis FloatsRoundTrip cfg ext v (for every Float in v, parsing the text ryu prints gives that "
              "Float back); it is discharged by C07 (float_roundtrip) / C08 (short literals), not here; c04_value_nofloat and c04_value_ap "
              "need no such hypothesis",
@@ -920,7 +946,9 @@ PROPS["C04"] = dict(
               "JSON whitespace, so a harmless change of the pretty layout alarms C03 but not C04) with C01 "
               "completeness (derivable text meeting the side conditions is accepted with value canonM) and a structural induction showing "
               "canonM(cstOf(image v)) = v for every well-formed Value; differential run of the composed models against the crate's own "
-              "round trips; typed data by differential round trips of a zoo of derived types",
+              "round trips; typed data: Lean theorem c04_typed_partial by composition (C03 on the program progOf, image = image of valueOf, "
+              "from_value(to_value) = id, text leg of C16), differential round trips of a zoo of derived types (rtt) and of generated "
+              "(schema, value) pairs with computed model text and value (rtm)",
     level_text="Machine-checked: c04_value / c04_value_pretty (for every build, source, well-formed Value v and whitespace indent: the model "
                "serializer's output parses back to exactly v, given that the float printer/parser pair returns the floats of v), "
                "c04_value_nofloat and c04_value_ap (no float hypothesis), c04_value_all_floats (global float hypothesis), with each clause "
@@ -930,10 +958,14 @@ PROPS["C04"] = dict(
                "default build and from roundNE64's range for float_roundtrip), hence c04_reparse / c04_reparse_ap (serialise-then-parse "
                "of any parsed value gives it back, across sources and formatters). The crate's to_string/to_vec/to_writer(+pretty) "
                "followed by from_str/from_slice/from_reader is run on generated Values and compared both with the original and with the "
-               "Lean round trip; typed data (derived types covering the serde data model) is round-tripped through the crate.",
+               "Lean round trip. Typed clause: c04_typed_partial (machine-checked, compact formatter, float-free fragment, every "
+               "source); typed data (derived types covering the serde data model) is round-tripped through the crate (rtt), and "
+               "generated (schema, value) pairs are serialised and read back by the crate and by the models, compared byte for byte "
+               "and value for value (rtm).",
     level_note="Trusted: Lean kernel + 3 standard axioms; extract.py; harness/driver; the serializer and parser models (tied by C03 and "
-               "C01/C02 correspondence); itoa/ryu as parameters. Partial: typed clause by correspondence only; the float step of the round trip "
-               "(printed text reads back as the same double) is a named hypothesis (C07/C08); finiteness of parsed floats is proved.",
+               "C01/C02 correspondence); itoa/ryu as parameters; serde's and serde_derive's Serialize impls as transcribed by progOf. "
+               "Partial: typed clause proved for the compact formatter on the float-free fragment, the rest by correspondence; float "
+               "step is a named hypothesis (C07/C08).",
 )
 
 PROPS["C07"] = dict(
@@ -968,9 +1000,10 @@ PROPS["C07"] = dict(
         "c07_correct_partial (f64 targets): deFloatRoundtrip = convertRoundtrip is proved from two explicit hypotheses: "
         "ModOk false p = the missing lemma moderate_path_sound for the one call de.rs makes on p (if error_is_accurate accepts "
         "the 80-bit product of the mantissa and the cached power, rounding it equals rounding the exact value; if it rejects, "
-        "the exact value lies in the neighbourhood of the downward-rounded product) - false on the pinned tree for the literals "
-        "of open finding C07-moderate-truncated, carried by the exact-oracle sweep otherwise; and NoZeroTail false p = not the "
-        "shape of open finding C07-zero-tail",
+        "the exact value lies in the neighbourhood of the downward-rounded product) - it was false on the pinned tree for the "
+        "literals of finding C07-moderate-truncated (repaired in /repo, eca65d4) and is now true but not yet proved; carried by "
+        "the exact-oracle sweep; and NoZeroTail false p = not the shape of finding C07-zero-tail (repaired, 1024dba; the "
+        "hypothesis is now redundant but still carried)",
         "f32 targets: every layer (c07_split, c07_fast_path_exact, c07_into_float_rne, c07_bhcomp_exact, parse_concise/"
         "parse_truncated = roundDec b32) is proved for both formats, but the final identification with convertRoundtripSingle "
         "(the f32 analogue of conv64_eq, parked in docs/C07-parked-f32.lean.txt) and hence c07_correct_partial for f32 are not "
@@ -995,14 +1028,15 @@ PROPS["C07"] = dict(
                "returns the correctly rounded value, including the MAX_DIGITS truncation argument 2^54*5^1075 < 10^768); "
                "c07_correct_partial (f64: de.rs + lexical = convertRoundtrip, i.e. nearest-even of the exact value, sign incl. -0.0, "
                "underflow to +-0, out of range iff the rounding is infinite, exponent-overflow rule - under the explicit per-call "
-               "hypothesis moderate_path_sound and the exclusion of an open finding). The transcription is run bit for bit against "
+               "hypothesis moderate_path_sound and a shape hypothesis that the repaired code no longer needs). The transcription is run bit for bit against "
                "the crate, and the independent exact-rational oracle is evaluated on the crate's output, on 81k (quick) / 1.4M "
                "(thorough) constructed literals incl. exact midpoints up to 770 digits and all 2^32 f32 patterns print->parse.",
     level_note="Trusted: Lean kernel + 3 standard axioms; extract.py; harness/driver; Model.Lexical transcription validated bit for bit; "
                "math.rs limb arithmetic abstracted by Nat. PARTIAL: moderate_path_sound is an explicit hypothesis of c07_correct_partial "
-               "(it is false on the pinned tree: finding C07-moderate-truncated was found while stating it); f32 top-level assembly "
-               "and c07_roundtrip not yet stated. Three open findings of the pinned tree (known_findings.json: C07-zero-tail, "
-               "C07-f32-negint, C07-moderate-truncated) with validated repairs in docs/C07-fix-*.diff.",
+               "(it was false on the pinned tree: finding C07-moderate-truncated was found while stating it); f32 top-level assembly "
+               "and c07_roundtrip not yet stated. Three genuine defects of the pinned tree found by this check (known_findings.json: "
+               "C07-zero-tail, C07-f32-negint, C07-moderate-truncated) were repaired in /repo by the fix: commits 1024dba, be03444, "
+               "eca65d4; the model follows the repaired code.",
 )
 
 # properties not claimed yet (kept current as checks are added)
